@@ -387,6 +387,14 @@ impl KeyExchangeClient {
 
         let response = KeyExchangeResponse::parse(&mut io).await?;
 
+        // The server must choose from what we offered; never adopt a protocol
+        // or algorithm that was not part of our request.
+        if !self.protocols.contains(&response.protocol)
+            || !self.algorithms.contains(&response.algorithm)
+        {
+            return Err(NtsError::Invalid);
+        }
+
         let keys = NtsKeys::extract_from_connection(
             io.get_ref().1,
             response.protocol,
